@@ -279,6 +279,8 @@ def d_separations(
     :yields: True d-separation judgements
     """
     vertices = set(graph.nodes())
+    # ``powerset`` excludes its ``stop``, while ``max_conditions`` is the longest set to investigate
+    stop = None if max_conditions is None else max_conditions + 1
     for a, b in tqdm(
         combinations(vertices, 2),
         disable=not verbose,
@@ -286,7 +288,7 @@ def d_separations(
         unit="pair",
         total=len(vertices) * (len(vertices) - 1) // 2,
     ):
-        for conditions in powerset(vertices - {a, b}, stop=max_conditions):
+        for conditions in powerset(vertices - {a, b}, stop=stop):
             judgement = are_d_separated(graph, a, b, conditions=conditions)
             if judgement.separated:
                 yield judgement
